@@ -2,7 +2,7 @@ import BigtreeModel.Proto
 import BigtreeModel.Query
 /-! Driver handler for property C12 (derived node queries).
 
-* `props node=<id> (T <tree> | B <btree>)` →
+* `props node=<id> (T <tree> | B <btree>) [(T <tree> | B <btree>)]` →
   `anc=… desc=… leaves=… sib=… ls=… rs=… path=… root=… isroot=… isleaf=… depth=… maxdepth=… diam=…`
   (node lists as ids, `-` for the empty list / `None`);
 * `goto from=<id> to=<id> (T <tree> | B <btree>) [(T <tree> | B <btree>)]` → `ok <ids>` or `rej`
@@ -77,7 +77,12 @@ def handle (toks : List String) : String :=
     | "props" :: rest => do
       let i ← (← kv rest "node").toNat?
       let (R, bt, tail) ← parseAny (dropToTree rest)
-      if !tail.isEmpty then none else props R bt i
+      if tail.isEmpty then props R bt i
+      else
+        -- a second tree on the line: the node lives in one of the two
+        let (R2, bt2, tail2) ← parseAny tail
+        if !tail2.isEmpty then none
+        else if (locate R i).isSome then props R bt i else props R2 bt2 i
     | "goto" :: rest => do
       let i ← (← kv rest "from").toNat?
       let j ← (← kv rest "to").toNat?
